@@ -178,6 +178,19 @@ func (s *Support) Shapes(thorough bool) []*Type {
 			}
 		}
 	}
+	// float keys over nested containers (a NaN key read from the wire can never be looked up again)
+	fl := []string{"int32", "string"}
+	if thorough {
+		fl = []string{"int32", "string", "byte", "SupFixed", "SupMsg", "SupUnion"}
+	}
+	for _, ln := range fl {
+		l := s.Leaf(ln)
+		add(M("float64", A(l)))
+		add(M("float32", M("string", l)))
+		add(M("float32", A(l)))
+		add(M("float64", M("float32", l)))
+		add(A(M("float64", A(l))))
+	}
 	if thorough {
 		// depth 3 over a reduced leaf set × keys {string,uint32}
 		for _, ln := range []string{"int32", "string", "byte", "EnU16", "SupFixed", "SupMsg"} {
@@ -314,6 +327,12 @@ func (s *Support) Cases(thorough bool) []*Case {
 	rub.Fields = []Field{{Name: "inner", Index: 1, Type: R(ru)}, {Name: "tail", Index: 2, Type: P("string")}}
 	ru.Branches = []Branch{{Disc: 1, Rec: rua}, {Disc: 3, Rec: rub}, {Disc: 255, Rec: &Record{Kind: Struct, Inline: true, Name: "CXRecUC"}}}
 	out = append(out, &Case{ID: "CXRecU", Ctx: "X", Class: "X|recursive-union", Rec: ru})
+	// discriminator 0 (what a failed ReadByte yields) on a branch that contains the union itself
+	ru0 := &Record{Kind: Union, Name: "CXRecU0"}
+	ru0a := &Record{Kind: Struct, Inline: true, Name: "CXRecU0A"}
+	ru0a.Fields = []Field{{Name: "inner", Type: R(ru0)}, {Name: "v", Type: P("int32")}}
+	ru0.Branches = []Branch{{Disc: 0, Rec: ru0a}, {Disc: 1, Rec: &Record{Kind: Struct, Inline: true, Name: "CXRecU0B", Fields: []Field{{Name: "v", Type: P("uint16")}}}}}
+	out = append(out, &Case{ID: "CXRecU0", Ctx: "X", Class: "X|recursive-union-discriminator-0", Rec: ru0})
 	// many fields of all primitive kinds in one struct / message (layout of adjacent scalars)
 	all := &Record{Kind: Struct}
 	allm := &Record{Kind: Message}
